@@ -350,6 +350,10 @@ class Inotify:
             break
 
         with self._lock:
+            if self._closed:
+                # close() ran between the two critical sections and has released the descriptors:
+                # nothing below may touch the inotify descriptor any more.
+                return []
             event_list = []
             for wd, mask, cookie, name in Inotify._parse_event_buffer(event_buffer):
                 if wd == -1:
